@@ -1,6 +1,720 @@
-//! C20 — stub (to be implemented).
+//! C20 — format autodetection picks the written format; conversions keep content.
+//!
+//! Monitor. For generated record sets restricted to the data model that every format represents
+//! alike (see `aln.rs` / `var.rs`), every (format, compression) pair the noodles-util writer
+//! builders offer is written through the *generic* writer; then
+//!
+//! (i)  the stream must have the shape of the requested pair (independent look at the leading
+//!      bytes, BGZF walked by the harness' own walker), must read back through the generic reader
+//!      with nothing but `build_from_reader` (format and compression autodetected) as the written
+//!      descriptions, must be readable by the *format-specific* reader of the intended pair, must
+//!      make `read_record` produce the `Record` variant of the intended format, and the outcome
+//!      must not change when the same bytes arrive through a reader whose first `read` returns
+//!      fewer bytes than the magic number / the first BGZF block (`vcore::adv::ChunkedRead`);
+//! (ii) for every ordered (source, target) pair, generic reader -> generic writer (the loop of
+//!      `util_alignment_rewrite` / `util_variant_rewrite`) must produce a stream of the target
+//!      shape that reads back as the written descriptions.
+//!
+//! Expected values always come from the generator's description, never from noodles.
+
+mod aln;
+mod var;
+
+use std::{fmt::Display, io::Read, path::Path};
+
+use serde_json::{Value, json};
+use vcore::{
+    CaseOut, Ctx, Report, Rng,
+    adv::{ChunkedRead, Sizes},
+    bgzf as obgzf, guard,
+    report::hex,
+    rng::fnv1a,
+    run_cases,
+};
+
+#[derive(Debug, Clone)]
+pub struct Fail {
+    pub stage: &'static str,
+    pub err: String,
+}
+
+impl Fail {
+    pub fn new(stage: &'static str, e: impl Display) -> Self {
+        Fail { stage, err: e.to_string() }
+    }
+}
+
+/// What a reader delivered, in the common currency of both sides.
+#[derive(Debug, Default, Clone)]
+pub struct Rb {
+    /// header items the records are interpreted against (reference dictionary / contigs, samples)
+    pub hdr: Vec<String>,
+    pub lines: Vec<String>,
+}
+
+/// One record set together with everything needed to drive noodles on it.
+trait Driver {
+    fn side(&self) -> &'static str;
+    fn class(&self) -> &str;
+    fn nfmt(&self) -> usize;
+    fn fmt_name(&self, f: usize) -> &'static str;
+    fn bgzf(&self, f: usize) -> bool;
+    fn raw_magic_len(&self, f: usize) -> usize;
+    fn record_variant(&self, f: usize) -> &'static str;
+    fn path_ext(&self, f: usize) -> Option<&'static str>;
+    fn cols(&self) -> &'static [&'static str];
+    fn expected(&self) -> &Rb;
+    fn write(&self, f: usize) -> Result<Vec<u8>, Fail>;
+    fn read_generic(&self, src: &mut dyn Read) -> Result<Rb, Fail>;
+    fn read_variants(&self, bytes: &[u8]) -> Result<(Vec<String>, Vec<&'static str>), Fail>;
+    fn read_specific(&self, f: usize, bytes: &[u8]) -> Result<Rb, Fail>;
+    fn convert(&self, bytes: &[u8], tgt: usize) -> Result<Vec<u8>, Fail>;
+    fn structural(&self, f: usize, bytes: &[u8]) -> Result<(), (&'static str, String)>;
+    fn write_path(&self, p: &Path) -> Result<(), Fail>;
+    fn read_path(&self, p: &Path) -> Result<Rb, Fail>;
+}
+
+// ---------------------------------------------------------------------------------------------
+
+struct AlnDriver {
+    set: aln::ASet,
+    header: noodles_sam::Header,
+    recs: Vec<noodles_sam::alignment::RecordBuf>,
+    repo: noodles_fasta::Repository,
+    exp: Rb,
+}
+
+impl AlnDriver {
+    fn new(set: aln::ASet) -> Result<Self, String> {
+        let header = aln::parse_header(&set.header_text)?;
+        let recs = set.recs.iter().map(aln::to_record_buf).collect();
+        let repo = aln::repository(&set.refs);
+        let exp = Rb {
+            hdr: set.refs.iter().map(|r| format!("{}:{}", r.name, r.seq.len())).collect(),
+            lines: set.recs.iter().map(|r| aln::expected_line(r, &set.refs)).collect(),
+        };
+        Ok(AlnDriver { set, header, recs, repo, exp })
+    }
+}
+
+fn aln_rb(r: aln::ReadBack) -> Rb {
+    Rb { hdr: r.refs.iter().map(|(n, l)| format!("{n}:{l}")).collect(), lines: r.lines }
+}
+
+impl Driver for AlnDriver {
+    fn side(&self) -> &'static str {
+        "alignment"
+    }
+    fn class(&self) -> &str {
+        &self.set.class
+    }
+    fn nfmt(&self) -> usize {
+        aln::AFMTS.len()
+    }
+    fn fmt_name(&self, f: usize) -> &'static str {
+        aln::AFMTS[f].name()
+    }
+    fn bgzf(&self, f: usize) -> bool {
+        aln::AFMTS[f].bgzf()
+    }
+    fn raw_magic_len(&self, f: usize) -> usize {
+        aln::AFMTS[f].raw_magic_len()
+    }
+    fn record_variant(&self, f: usize) -> &'static str {
+        aln::AFMTS[f].record_variant()
+    }
+    fn path_ext(&self, f: usize) -> Option<&'static str> {
+        aln::AFMTS[f].path_ext()
+    }
+    fn cols(&self) -> &'static [&'static str] {
+        &aln::COLS
+    }
+    fn expected(&self) -> &Rb {
+        &self.exp
+    }
+    fn write(&self, f: usize) -> Result<Vec<u8>, Fail> {
+        aln::write_generic(aln::AFMTS[f], &self.header, &self.recs, &self.repo)
+    }
+    fn read_generic(&self, src: &mut dyn Read) -> Result<Rb, Fail> {
+        aln::read_generic(src, &self.repo).map(aln_rb)
+    }
+    fn read_variants(&self, bytes: &[u8]) -> Result<(Vec<String>, Vec<&'static str>), Fail> {
+        aln::read_generic_variants(bytes, &self.repo)
+    }
+    fn read_specific(&self, f: usize, bytes: &[u8]) -> Result<Rb, Fail> {
+        aln::read_specific(aln::AFMTS[f], bytes, &self.repo).map(aln_rb)
+    }
+    fn convert(&self, bytes: &[u8], tgt: usize) -> Result<Vec<u8>, Fail> {
+        aln::convert(bytes, aln::AFMTS[tgt], &self.repo)
+    }
+    fn structural(&self, f: usize, bytes: &[u8]) -> Result<(), (&'static str, String)> {
+        aln::structural_check(aln::AFMTS[f], bytes)
+    }
+    fn write_path(&self, p: &Path) -> Result<(), Fail> {
+        aln::write_path(p, &self.header, &self.recs, &self.repo)
+    }
+    fn read_path(&self, p: &Path) -> Result<Rb, Fail> {
+        aln::read_path(p, &self.repo).map(aln_rb)
+    }
+}
+
+struct VarDriver {
+    set: var::VSet,
+    header: noodles_vcf::Header,
+    recs: Vec<noodles_vcf::variant::RecordBuf>,
+    exp: Rb,
+}
+
+fn var_hdr(contigs: impl Iterator<Item = String>, samples: impl Iterator<Item = String>) -> Vec<String> {
+    contigs.map(|c| format!("contig:{c}")).chain(samples.map(|s| format!("sample:{s}"))).collect()
+}
+
+impl VarDriver {
+    fn new(set: var::VSet) -> Result<Self, String> {
+        let header = var::parse_header(&set.header_text)?;
+        let recs = set.recs.iter().map(var::to_record_buf).collect();
+        let exp = Rb { hdr: var_hdr(set.contigs.iter().map(|c| c.0.clone()), set.sample_names.iter().cloned()), lines: set.recs.iter().map(var::expected_line).collect() };
+        Ok(VarDriver { set, header, recs, exp })
+    }
+}
+
+fn var_rb(r: var::ReadBack) -> Rb {
+    Rb { hdr: var_hdr(r.contigs.into_iter(), r.samples.into_iter()), lines: r.lines }
+}
+
+impl Driver for VarDriver {
+    fn side(&self) -> &'static str {
+        "variant"
+    }
+    fn class(&self) -> &str {
+        &self.set.class
+    }
+    fn nfmt(&self) -> usize {
+        var::VFMTS.len()
+    }
+    fn fmt_name(&self, f: usize) -> &'static str {
+        var::VFMTS[f].name()
+    }
+    fn bgzf(&self, f: usize) -> bool {
+        var::VFMTS[f].bgzf()
+    }
+    fn raw_magic_len(&self, f: usize) -> usize {
+        var::VFMTS[f].raw_magic_len()
+    }
+    fn record_variant(&self, f: usize) -> &'static str {
+        var::VFMTS[f].record_variant()
+    }
+    fn path_ext(&self, f: usize) -> Option<&'static str> {
+        var::VFMTS[f].path_ext()
+    }
+    fn cols(&self) -> &'static [&'static str] {
+        &var::COLS
+    }
+    fn expected(&self) -> &Rb {
+        &self.exp
+    }
+    fn write(&self, f: usize) -> Result<Vec<u8>, Fail> {
+        var::write_generic(var::VFMTS[f], &self.header, &self.recs)
+    }
+    fn read_generic(&self, src: &mut dyn Read) -> Result<Rb, Fail> {
+        var::read_generic(src).map(var_rb)
+    }
+    fn read_variants(&self, bytes: &[u8]) -> Result<(Vec<String>, Vec<&'static str>), Fail> {
+        var::read_generic_variants(bytes)
+    }
+    fn read_specific(&self, f: usize, bytes: &[u8]) -> Result<Rb, Fail> {
+        var::read_specific(var::VFMTS[f], bytes).map(var_rb)
+    }
+    fn convert(&self, bytes: &[u8], tgt: usize) -> Result<Vec<u8>, Fail> {
+        var::convert(bytes, var::VFMTS[tgt])
+    }
+    fn structural(&self, f: usize, bytes: &[u8]) -> Result<(), (&'static str, String)> {
+        var::structural_check(var::VFMTS[f], bytes)
+    }
+    fn write_path(&self, p: &Path) -> Result<(), Fail> {
+        var::write_path(p, &self.header, &self.recs)
+    }
+    fn read_path(&self, p: &Path) -> Result<Rb, Fail> {
+        var::read_path(p).map(var_rb)
+    }
+}
+
+// ---------------------------------------------------------------------------------------------
+// judging
+
+enum Verdict {
+    Same,
+    /// (stage, error text)
+    Failed(&'static str, String),
+    /// (column or "count"/"header", detail)
+    Differs(String, String),
+    Panicked(String, String),
+}
+
+fn first_diff_col(cols: &[&str], a: &str, b: &str) -> String {
+    let (x, y): (Vec<&str>, Vec<&str>) = (a.split('\t').collect(), b.split('\t').collect());
+    for (i, c) in cols.iter().enumerate() {
+        if x.get(i) != y.get(i) {
+            return c.to_string();
+        }
+    }
+    "shape".into()
+}
+
+fn clip(s: &str) -> String {
+    if s.len() > 300 { format!("{}…", s.chars().take(300).collect::<String>()) } else { s.to_string() }
+}
+
+fn judge(cols: &[&str], exp: &Rb, got: Result<Result<Rb, Fail>, guard::PanicInfo>) -> Verdict {
+    match got {
+        Err(p) => Verdict::Panicked(p.sig.clone(), format!("{} at {}:{}", p.message, p.file, p.line)),
+        Ok(Err(f)) => Verdict::Failed(f.stage, f.err),
+        Ok(Ok(rb)) => {
+            if rb.hdr != exp.hdr {
+                return Verdict::Differs("header".into(), format!("header items read {:?}, written {:?}", rb.hdr, exp.hdr));
+            }
+            for (i, (g, e)) in rb.lines.iter().zip(&exp.lines).enumerate() {
+                if g != e {
+                    let col = first_diff_col(cols, g, e);
+                    return Verdict::Differs(col.clone(), format!("record #{i} differs in {col}: read {:?}, written {:?}", clip(g), clip(e)));
+                }
+            }
+            if rb.lines.len() != exp.lines.len() {
+                return Verdict::Differs("count".into(), format!("{} records read, {} written", rb.lines.len(), exp.lines.len()));
+            }
+            Verdict::Same
+        }
+    }
+}
+
+struct Out {
+    o: CaseOut,
+    sigs: Vec<String>,
+}
+
+impl Out {
+    fn violation(&mut self, sig: String, desc: String, witness: Value) {
+        // one witness per signature and case is enough
+        if self.sigs.contains(&sig) {
+            self.o.count("violations_suppressed_same_sig_same_case", 1);
+            return;
+        }
+        self.sigs.push(sig.clone());
+        self.o.violation_with(sig, desc, witness);
+    }
+}
+
+fn head(bytes: &[u8]) -> Value {
+    json!({"len": bytes.len(), "head_hex": hex(&bytes[..bytes.len().min(48)])})
+}
+
+fn first_block_size(bytes: &[u8]) -> usize {
+    // BSIZE of the first BGZF member (harness' own reading of the header)
+    if bytes.len() >= 18 && bytes[12] == b'B' && bytes[13] == b'C' { u16::from_le_bytes([bytes[16], bytes[17]]) as usize + 1 } else { bytes.len() }
+}
+
+const BIG: usize = 1 << 30;
+
+fn windows(seed: u64, quick: bool) -> Vec<(&'static str, Sizes)> {
+    let mut w = vec![
+        ("every-read-1", Sizes::Fixed(1)),
+        ("every-read-2", Sizes::Fixed(2)),
+        ("every-read-3", Sizes::Fixed(3)),
+        ("first-1", Sizes::Script(vec![1, BIG])),
+        ("first-2", Sizes::Script(vec![2, BIG])),
+        ("first-3", Sizes::Script(vec![3, BIG])),
+        ("first-4", Sizes::Script(vec![4, BIG])),
+        ("first-17", Sizes::Script(vec![17, BIG])),
+        ("first-19", Sizes::Script(vec![19, BIG])),
+        ("first-30", Sizes::Script(vec![30, BIG])),
+        ("random-7", Sizes::Random(7, seed)),
+        ("every-read-4096", Sizes::Fixed(4096)),
+        ("first-8192-then-small", Sizes::Script(vec![8192, 1, 2, 3, BIG])),
+    ];
+    if !quick {
+        w.push(("every-read-5", Sizes::Fixed(5)));
+        w.push(("first-100", Sizes::Script(vec![100, BIG])));
+        w.push(("random-300", Sizes::Random(300, seed ^ 9)));
+        w.push(("every-read-8191", Sizes::Fixed(8191)));
+    }
+    w
+}
+
+/// Size of the first delivery the reader's 8 KiB `BufReader` will see.
+fn first_delivery(bytes: &[u8], sizes: &Sizes) -> usize {
+    let mut probe = ChunkedRead::from_slice(bytes, sizes.clone());
+    let mut buf = [0u8; 8192];
+    probe.read(&mut buf).unwrap_or(0)
+}
+
+fn run_set(d: &dyn Driver, ctx: &Ctx, idx: u64, seed: u64) -> CaseOut {
+    let mut out = Out { o: CaseOut::new(), sigs: Vec::new() };
+    out.o.evaluations = 0;
+    let side = d.side();
+    let exp = d.expected();
+    let n = d.nfmt();
+    let cols = d.cols();
+    out.o.count(&format!("sets[{side}/{}]", d.class()), 1);
+    out.o.count(&format!("records_in_sets[{side}]"), exp.lines.len() as u64);
+    out.o.max(&format!("max_records_per_set[{side}]"), exp.lines.len() as u64);
+
+    let mut files: Vec<Option<Vec<u8>>> = vec![None; n];
+    let mut src_ok = vec![false; n];
+    let eof_only = |b: &[u8]| b == obgzf::EOF_MARKER;
+
+    // ---- (i) writing, shape, detection ----------------------------------------------------
+    for f in 0..n {
+        let name = d.fmt_name(f);
+        let bytes = match guard::catch(|| d.write(f)) {
+            Err(p) => {
+                out.violation(format!("panic:{}", p.sig), format!("{side}: generic writer for {name} panicked: {}", p.message), Value::Null);
+                continue;
+            }
+            Ok(Err(e)) => {
+                out.o.count(&format!("writer_rejected[{side}/{name}/{}]", e.stage), 1);
+                out.o.inconclusive.push(format!("{side}: generic writer for {name} rejected a common-model set at {}: {}", e.stage, e.err));
+                continue;
+            }
+            Ok(Ok(b)) => b,
+        };
+        out.o.count(&format!("files_written[{side}/{name}]"), 1);
+        out.o.max("max_file_bytes", bytes.len() as u64);
+        files[f] = Some(bytes.clone());
+        let mut shape_ok = true;
+        if let Err((kind, msg)) = d.structural(f, &bytes) {
+            shape_ok = false;
+            out.violation(
+                format!("{side}-writer-{kind}-mismatch:{name}"),
+                format!("{side}: the generic writer built for {name} produced a stream of another shape: {msg}"),
+                head(&bytes),
+            );
+        }
+
+        // full first window
+        out.o.evaluations += 1;
+        out.o.count("detection_runs", 1);
+        out.o.fps.push(fnv1a(format!("det|{side}|{}|{name}|full", d.class()).as_bytes()));
+        let v = judge(cols, exp, guard::catch(|| d.read_generic(&mut &bytes[..])));
+        match &v {
+            Verdict::Same => {
+                src_ok[f] = true;
+                out.o.count(&format!("detected_ok[{side}/{name}]"), 1);
+                out.o.count("records_compared", exp.lines.len() as u64);
+            }
+            Verdict::Failed(stage, err) => {
+                if eof_only(&bytes) && *stage == "open" {
+                    out.violation(
+                        format!("{side}-autodetect-fails-on-eof-only-bgzf"),
+                        format!("{side}: the generic writer's {name} output for a set without header text and records is the 28-byte BGZF EOF marker; build_from_reader fails on it: {err}"),
+                        head(&bytes),
+                    );
+                } else {
+                    out.violation(format!("{side}-autodetect-{stage}-fails:{name}"), format!("{side}: generic reader (autodetect) on the generic writer's {name} output fails at {stage}: {err}"), head(&bytes));
+                }
+            }
+            Verdict::Differs(col, detail) => {
+                out.violation(format!("{side}-autodetect-readback-differs:{name}:{col}"), format!("{side}: generic reader (autodetect) on the generic writer's {name} output: {detail}"), head(&bytes));
+            }
+            Verdict::Panicked(sig, msg) => out.violation(format!("panic:{sig}"), format!("{side}: generic reader on {name} output panicked: {msg}"), head(&bytes)),
+        }
+
+        // the reader of the intended pair
+        if shape_ok {
+            out.o.count("specific_reader_runs", 1);
+            match judge(cols, exp, guard::catch(|| d.read_specific(f, &bytes))) {
+                Verdict::Same => out.o.count(&format!("specific_ok[{side}/{name}]"), 1),
+                Verdict::Failed(stage, err) => {
+                    out.violation(format!("{side}-specific-reader-{stage}-fails:{name}"), format!("{side}: the {name} reader cannot read what the generic writer built for {name} produced ({stage}): {err}"), head(&bytes))
+                }
+                Verdict::Differs(col, detail) => out.violation(format!("{side}-specific-readback-differs:{name}:{col}"), format!("{side}: the {name} reader on the generic writer's {name} output: {detail}"), head(&bytes)),
+                Verdict::Panicked(sig, msg) => out.violation(format!("panic:{sig}"), format!("{side}: {name} reader panicked: {msg}"), head(&bytes)),
+            }
+        }
+
+        if !src_ok[f] {
+            continue;
+        }
+
+        // read_record path: same records, and the Record variant tells the detected format
+        match guard::catch(|| d.read_variants(&bytes)) {
+            Err(p) => out.violation(format!("panic:{}", p.sig), format!("{side}: read_record on {name} output panicked: {}", p.message), head(&bytes)),
+            Ok(Err(e)) => out.violation(format!("{side}-read_record-{}-fails:{name}", e.stage), format!("{side}: read_record path on {name} output fails: {}", e.err), head(&bytes)),
+            Ok(Ok((lines, variants))) => {
+                if let Verdict::Differs(col, detail) = judge(cols, exp, Ok(Ok(Rb { hdr: exp.hdr.clone(), lines }))) {
+                    out.violation(format!("{side}-read_record-differs:{name}:{col}"), format!("{side}: read_record path on {name} output: {detail}"), head(&bytes));
+                }
+                if !variants.is_empty() {
+                    out.o.count("record_variant_observations", 1);
+                    if variants != [d.record_variant(f)] {
+                        out.violation(
+                            format!("{side}-detected-record-variant:{name}"),
+                            format!("{side}: read_record on the generic writer's {name} output yields Record::{variants:?}, the intended format is Record::{}", d.record_variant(f)),
+                            head(&bytes),
+                        );
+                    }
+                }
+            }
+        }
+
+        // short first windows
+        for (label, sizes) in windows(seed ^ f as u64, ctx.quick()) {
+            let w0 = first_delivery(&bytes, &sizes);
+            out.o.evaluations += 1;
+            out.o.count("detection_runs", 1);
+            out.o.count("detection_runs_chunked", 1);
+            let limit = if d.bgzf(f) { first_block_size(&bytes).min(8192).min(bytes.len()) } else { d.raw_magic_len(f).min(bytes.len()) };
+            if w0 < limit {
+                out.o.count(&format!("short_first_window_runs[{side}/{name}]"), 1);
+            }
+            out.o.fps.push(fnv1a(format!("det|{side}|{}|{name}|{label}", d.class()).as_bytes()));
+            let v = judge(cols, exp, guard::catch(|| d.read_generic(&mut ChunkedRead::from_slice(&bytes, sizes.clone()))));
+            let what = match v {
+                Verdict::Same => {
+                    out.o.count("chunked_detection_ok", 1);
+                    continue;
+                }
+                Verdict::Panicked(sig, msg) => {
+                    out.violation(format!("panic:{sig}"), format!("{side}: generic reader on {name} behind window {label} panicked: {msg}"), head(&bytes));
+                    continue;
+                }
+                Verdict::Failed(stage, err) => format!("fails at {stage}: {err}"),
+                Verdict::Differs(_, detail) => detail,
+            };
+            let class = if d.bgzf(f) {
+                if w0 < 2 {
+                    "magic-split"
+                } else if w0 < limit {
+                    "bgzf-block-split"
+                } else {
+                    ""
+                }
+            } else if w0 < limit {
+                "magic-split"
+            } else {
+                ""
+            };
+            let desc = format!(
+                "{side}: the same {name} bytes ({} bytes) that autodetect reads correctly from a slice are not read correctly when the first read() delivers only {w0} byte(s) (window script {label}): {what}",
+                bytes.len()
+            );
+            if class.is_empty() {
+                out.violation(format!("{side}-autodetect-window-dependent:{name}"), desc, json!({"window": label, "first_delivery": w0, "file": head(&bytes)}));
+            } else {
+                out.o.count(&format!("short_first_read_misdetections[{side}/{name}/{class}]"), 1);
+                out.violation(format!("{side}-autodetect-short-first-read:{class}"), desc, json!({"window": label, "first_delivery": w0, "file": head(&bytes)}));
+            }
+        }
+    }
+
+    // ---- (ii) conversions -------------------------------------------------------------------
+    for s in 0..n {
+        for t in 0..n {
+            let (sn, tn) = (d.fmt_name(s), d.fmt_name(t));
+            // a target the generic writer rejected directly is not a supported combination for this set
+            let (Some(src), Some(_)) = (files[s].as_ref(), files[t].as_ref()) else {
+                out.o.count("conversions_skipped_file_not_written", 1);
+                continue;
+            };
+            if !src_ok[s] {
+                // already reported under (i); a conversion from an unreadable source says nothing new
+                out.o.count("conversions_skipped_source_unreadable", 1);
+                continue;
+            }
+            out.o.evaluations += 1;
+            out.o.count("conversion_pairs", 1);
+            out.o.count(&format!("conversion[{side}/{sn}->{tn}]"), 1);
+            out.o.fps.push(fnv1a(format!("conv|{side}|{}|{sn}|{tn}", d.class()).as_bytes()));
+            let conv = match guard::catch(|| d.convert(src, t)) {
+                Err(p) => {
+                    out.violation(format!("panic:{}", p.sig), format!("{side}: conversion {sn}->{tn} panicked: {}", p.message), head(src));
+                    continue;
+                }
+                Ok(Err(e)) => {
+                    out.violation(
+                        format!("{side}-conversion-fails:{sn}->{tn}:{}", e.stage),
+                        format!("{side}: piping the generic reader over {sn} into the generic writer for {tn} fails at {} although {tn} accepted the same records directly: {}", e.stage, e.err),
+                        head(src),
+                    );
+                    continue;
+                }
+                Ok(Ok(b)) => b,
+            };
+            if let Err((kind, msg)) = d.structural(t, &conv) {
+                out.violation(format!("{side}-writer-{kind}-mismatch:{tn}"), format!("{side}: conversion {sn}->{tn}: the generic writer built for {tn} produced a stream of another shape: {msg}"), head(&conv));
+            }
+            match judge(cols, exp, guard::catch(|| d.read_generic(&mut &conv[..]))) {
+                Verdict::Same => {
+                    out.o.count("conversions_ok", 1);
+                    out.o.count("records_compared", exp.lines.len() as u64);
+                }
+                Verdict::Failed(stage, err) => {
+                    if eof_only(&conv) && stage == "open" {
+                        out.violation(
+                            format!("{side}-autodetect-fails-on-eof-only-bgzf"),
+                            format!("{side}: conversion {sn}->{tn} of a set without header text and records yields the 28-byte BGZF EOF marker; build_from_reader fails on it: {err}"),
+                            head(&conv),
+                        );
+                    } else {
+                        out.violation(format!("{side}-conversion-unreadable:{sn}->{tn}:{stage}"), format!("{side}: the {tn} stream converted from {sn} cannot be read back ({stage}): {err}"), head(&conv));
+                    }
+                }
+                Verdict::Differs(col, detail) => out.violation(format!("{side}-conversion-differs:{sn}->{tn}:{col}"), format!("{side}: conversion {sn}->{tn}: {detail}"), head(&conv)),
+                Verdict::Panicked(sig, msg) => out.violation(format!("panic:{sig}"), format!("{side}: reading the {tn} stream converted from {sn} panicked: {msg}"), head(&conv)),
+            }
+        }
+    }
+
+    // ---- path based builders: the writer picks the pair from the extension, the reader from the content
+    for f in 0..n {
+        let Some(ext) = d.path_ext(f) else { continue };
+        if files[f].is_none() {
+            continue;
+        }
+        let name = d.fmt_name(f);
+        let path = ctx.work.join(format!("c{idx}-{side}.{ext}"));
+        out.o.count("path_runs", 1);
+        match guard::catch(|| d.write_path(&path)) {
+            Err(p) => {
+                out.violation(format!("panic:{}", p.sig), format!("{side}: build_from_path writer for .{ext} panicked: {}", p.message), Value::Null);
+                continue;
+            }
+            Ok(Err(e)) => {
+                out.violation(format!("{side}-path-writer-fails:{name}:{}", e.stage), format!("{side}: build_from_path(\"x.{ext}\") writer fails at {} although build_from_writer for {name} accepted the set: {}", e.stage, e.err), Value::Null);
+                continue;
+            }
+            Ok(Ok(())) => {}
+        }
+        let bytes = std::fs::read(&path).unwrap_or_default();
+        if let Err((kind, msg)) = d.structural(f, &bytes) {
+            out.violation(format!("{side}-writer-{kind}-mismatch:{name}"), format!("{side}: build_from_path(\"x.{ext}\") produced a stream that is not {name}: {msg}"), head(&bytes));
+        }
+        match judge(cols, exp, guard::catch(|| d.read_path(&path))) {
+            Verdict::Same => out.o.count("path_runs_ok", 1),
+            Verdict::Failed(stage, err) => {
+                if eof_only(&bytes) && stage == "open" {
+                    out.violation(format!("{side}-autodetect-fails-on-eof-only-bgzf"), format!("{side}: build_from_path on the x.{ext} file written for a set without header text and records (28-byte BGZF EOF marker) fails: {err}"), head(&bytes));
+                } else {
+                    out.violation(format!("{side}-path-autodetect-{stage}-fails:{name}"), format!("{side}: reader build_from_path on the file written through build_from_path(\"x.{ext}\") fails at {stage}: {err}"), head(&bytes));
+                }
+            }
+            Verdict::Differs(col, detail) => out.violation(format!("{side}-path-readback-differs:{name}:{col}"), format!("{side}: x.{ext} written and read through build_from_path: {detail}"), head(&bytes)),
+            Verdict::Panicked(sig, msg) => out.violation(format!("panic:{sig}"), format!("{side}: build_from_path reader on x.{ext} panicked: {msg}"), head(&bytes)),
+        }
+        let _ = std::fs::remove_file(&path);
+    }
+    out.o
+}
+
+// ---------------------------------------------------------------------------------------------
+
+#[derive(Clone, Debug)]
+struct Case {
+    side: &'static str,
+    class: String,
+    seed: u64,
+}
+
+fn case_json(c: &Case) -> Value {
+    json!({"side": c.side, "class": c.class, "set_seed": c.seed})
+}
+
+fn gen_cases(ctx: &Ctx) -> Vec<Case> {
+    let mut cases = Vec::new();
+    // deterministic part: every class once per side, seeded by VERIF_SEED (the sets without
+    // header text and records do not depend on the seed: they are the witnesses of the known
+    // empty-SAM.gz finding)
+    for (i, c) in aln::DET_CLASSES.iter().enumerate() {
+        cases.push(Case { side: "alignment", class: c.to_string(), seed: ctx.seed.wrapping_mul(1000) + i as u64 });
+    }
+    for (i, c) in var::DET_CLASSES.iter().enumerate() {
+        cases.push(Case { side: "variant", class: c.to_string(), seed: ctx.seed.wrapping_mul(1000) + i as u64 });
+    }
+    // seeded random part
+    let n = ctx.budget("sets", 6, 480);
+    let mut rng = Rng::new(ctx.seed, 0xC20, 0);
+    for i in 0..n {
+        // the multi-block classes are the expensive ones: keep them rare
+        let pick = |rng: &mut Rng, classes: &[&str]| -> String {
+            loop {
+                let c = *rng.pick(classes);
+                if c != "multi-block" || rng.chance(1, 6) {
+                    return c.to_string();
+                }
+            }
+        };
+        cases.push(Case { side: "alignment", class: pick(&mut rng, aln::RANDOM_CLASSES), seed: ctx.seed.wrapping_mul(7919).wrapping_add(i) });
+        cases.push(Case { side: "variant", class: pick(&mut rng, var::RANDOM_CLASSES), seed: ctx.seed.wrapping_mul(104729).wrapping_add(i) });
+    }
+    cases
+}
+
+fn run_case(ctx: &Ctx, idx: u64, c: &Case) -> CaseOut {
+    let built: Result<Box<dyn Driver>, String> = if c.side == "alignment" {
+        AlnDriver::new(aln::make_set(&c.class, c.seed)).map(|d| Box::new(d) as Box<dyn Driver>)
+    } else {
+        VarDriver::new(var::make_set(&c.class, c.seed)).map(|d| Box::new(d) as Box<dyn Driver>)
+    };
+    match built {
+        Ok(d) => {
+            let mut o = run_set(d.as_ref(), ctx, idx, c.seed);
+            o.fp = fnv1a(format!("set|{}|{}", c.side, c.class).as_bytes());
+            if idx % 5 == 0 {
+                o.sample = Some(json!({"case": case_json(c), "records": d.expected().lines.len(), "first_record": d.expected().lines.first()}));
+            }
+            o
+        }
+        Err(e) => {
+            // a generator problem is never a verdict about noodles
+            let mut o = CaseOut::new();
+            o.evaluations = 0;
+            o.inconclusive.push(e);
+            o
+        }
+    }
+}
 
 fn main() {
-    eprintln!("c20: not implemented");
-    std::process::exit(2);
+    let ctx = Ctx::from_args();
+    let ctx = vcore::cases::replay_request(&ctx).map(|r| r.1).unwrap_or(ctx);
+    let mut rep = Report::new(
+        "case = one generated record set (side alignment/variant, class, seed) restricted to the common data model; per set every \
+         (format, compression) pair of the noodles-util writer builders {SAM, SAM.gz, BAM, raw BAM, CRAM} / {VCF, VCF.gz, BCF, raw BCF} is \
+         written by the generic writer, checked for shape, read back by the autodetecting generic reader (slice and 13-17 scripted \
+         first-read windows), by the reader of the intended format and through read_record; then all ordered (source, target) pairs are \
+         converted generic reader -> generic writer and read back. evaluations = detection runs + conversion pairs; distinct = distinct \
+         (side, set class, format, window script) and (side, set class, source, target); non-trivial = all (every run writes and reads a file)",
+    );
+    rep.assumptions.push(
+        "expected records are the generator's own descriptions rendered at the SAM / VCF data-model level (aux and INFO/FORMAT as key->typed value maps, \
+         integers by value, floats by f32 bits, RNAME/RNEXT by name through the header read from the same stream, first GT allele phasing ignored); \
+         headers are compared only on what records are interpreted against (reference dictionary names+lengths; contig and sample names)"
+            .into(),
+    );
+    rep.assumptions.push(
+        "common model: unique read names, upper-case ACGTN bases, qualities present, CIGAR over M/I/D/N/S, reads inside their reference, CRAM given the generated \
+         reference sequences through set_reference_sequence_repository; VCF values BCF can represent, every FILTER/INFO/FORMAT/contig defined in the header"
+            .into(),
+    );
+    let cases = gen_cases(&ctx);
+    let f = |i: u64| -> CaseOut { run_case(&ctx, i, &cases[i as usize]) };
+    run_cases(&ctx, &mut rep, cases.len() as u64, 120.0, &f, &|i| case_json(&cases[i as usize]));
+    if ctx.replay.is_none() {
+        let counters = rep.counters.clone();
+        let c = |k: &str| counters.get(k).copied().unwrap_or(0);
+        rep.floor("conversion_pairs", c("conversion_pairs"), ctx.budget("floor_pairs", 250, 8000));
+        rep.floor("conversions_ok", c("conversions_ok"), ctx.budget("floor_pairs_ok", 200, 7000));
+        rep.floor("detection_runs", c("detection_runs"), 500);
+        rep.floor("records_compared", c("records_compared"), 5000);
+        for f in aln::AFMTS {
+            rep.floor(&format!("files_written[alignment/{}]", f.name()), c(&format!("files_written[alignment/{}]", f.name())), 10);
+            rep.floor(&format!("detected_ok[alignment/{}]", f.name()), c(&format!("detected_ok[alignment/{}]", f.name())), 8);
+        }
+        for f in var::VFMTS {
+            rep.floor(&format!("files_written[variant/{}]", f.name()), c(&format!("files_written[variant/{}]", f.name())), 10);
+            rep.floor(&format!("detected_ok[variant/{}]", f.name()), c(&format!("detected_ok[variant/{}]", f.name())), 8);
+        }
+        rep.floor("record_variant_observations", c("record_variant_observations"), 50);
+        rep.floor("path_runs", c("path_runs"), 50);
+    }
+    rep.finish(&ctx);
 }
